@@ -356,7 +356,7 @@ CHECKS = {
     ),
     "C20": dict(
         category="fault_enumeration",
-        text=("Light-aggregator half of the property. Ipa.tla models the inner-product argument over a toy field with group elements "
+        text=("Ipa.tla models the inner-product argument over a toy field with group elements "
               "as coordinate vectors over independent bases; TLC explores every scalar vector and challenge sequence (P = 5, N = 2; "
               "P = 3, N = 4; thorough also P = 7) and checks completeness, the folding invariant <s',b'> = <s,b> + u^2 L + u^-2 R, and "
               "that a changed final scalar, claimed value or round message is rejected. Against the code: valid inner proofs of a "
@@ -367,10 +367,15 @@ CHECKS = {
               "PLONK proof | IPA: commons, r, k x (L, R, u), s | r) to hold, every corruption of the plan (bit flips, replacement "
               "by another valid point, count +-1, truncation, extension) and every edited or swapped inner public input to be "
               "rejected, invalid inner proofs never to yield an accepted aggregate, and the plan to cover the elements it promises "
-              "(quick: the first 12, last 24 and every 6th element; thorough: every element, 12 aggregations)."),
+              "(quick: the first 12, last 24 and every 6th element; thorough: every element, 12 aggregations). Verifier gadget "
+              "(foreign-curve back-end): the repository's own verifier circuit (K = 18) is rebuilt from the public API; for a valid "
+              "inner proof MockProver must accept instance = encode(vk identity, OFF-circuit accumulator), the accumulator the "
+              "circuit itself exposes (followed through its copy constraints) must equal the off-circuit one and pass the pairing "
+              "check, single-position edits of the claimed instance must be unsatisfiable, and for corrupted proofs / public "
+              "inputs that still parse both verifiers must derive the same accumulator, which must fail the pairing check."),
         design_ref="DESIGN.md 4/C20",
-        note=("Not covered: the foreign-curve verifier gadget (in-circuit vs off-circuit accumulator under MockProver), the IVC "
-              "example, the IPA as a stand-alone function (private module). aggregate_proofs refuses some invalid inner proofs by "
+        note=("The verifier gadget is exercised on one inner circuit shape (Poseidon, k = 10; each MockProver run at K = 18 takes ~10 s). "
+              "Not covered: the IVC example, the IPA as a stand-alone function (private module). aggregate_proofs refuses some invalid inner proofs by "
               "panicking instead of returning Err (counted as refusal, noted in the evidence)."),
         technique="TLA+/TLC model checking of the IPA folding argument + spec-checked fault enumeration on recorded aggregator transcripts (trace validation)",
     ),
